@@ -4,8 +4,8 @@ package main
 // (Of/OfMany/ToArray/Get*), C14 (Join/Getw/Slice). One event = one batch of calls on one input.
 
 import (
-	"sort"
 	"math/rand"
+	"sort"
 
 	"github.com/openacid/low/bitmap"
 )
@@ -45,19 +45,19 @@ var wordPats = []func(r *rand.Rand) uint64{
 	func(r *rand.Rand) uint64 { return 1 << 32 },
 	func(r *rand.Rand) uint64 { return 0xaaaaaaaaaaaaaaaa },
 	func(r *rand.Rand) uint64 { return 0x5555555555555555 },
-	func(r *rand.Rand) uint64 { return r.Uint64() & r.Uint64() & r.Uint64() },       // sparse
-	func(r *rand.Rand) uint64 { return r.Uint64() | r.Uint64() | r.Uint64() },       // dense
-	func(r *rand.Rand) uint64 { return r.Uint64() },                                 // random
-	func(r *rand.Rand) uint64 { return ^uint64(0) &^ (1 << uint(r.Intn(64))) },      // all but one
+	func(r *rand.Rand) uint64 { return r.Uint64() & r.Uint64() & r.Uint64() },      // sparse
+	func(r *rand.Rand) uint64 { return r.Uint64() | r.Uint64() | r.Uint64() },      // dense
+	func(r *rand.Rand) uint64 { return r.Uint64() },                                // random
+	func(r *rand.Rand) uint64 { return ^uint64(0) &^ (1 << uint(r.Intn(64))) },     // all but one
 	func(r *rand.Rand) uint64 { return 1<<uint(r.Intn(64)) | 1<<uint(r.Intn(64)) }, // one or two bits
-	func(r *rand.Rand) uint64 { return uint64(r.Intn(256)) << uint(8*r.Intn(8)) },   // one byte
-	func(r *rand.Rand) uint64 { return ^uint64(0) << uint(r.Intn(64)) },             // high run
-	func(r *rand.Rand) uint64 { return ^uint64(0) >> uint(r.Intn(64)) },             // low run
+	func(r *rand.Rand) uint64 { return uint64(r.Intn(256)) << uint(8*r.Intn(8)) },  // one byte
+	func(r *rand.Rand) uint64 { return ^uint64(0) << uint(r.Intn(64)) },            // high run
+	func(r *rand.Rand) uint64 { return ^uint64(0) >> uint(r.Intn(64)) },            // low run
 	func(r *rand.Rand) uint64 { return 0xffffffff00000000 },
 	func(r *rand.Rand) uint64 { return 0x00000000ffffffff },
 	func(r *rand.Rand) uint64 { return 1<<63 | 1 },
 	func(r *rand.Rand) uint64 { return r.Uint64() & 0xffffffff00000000 },
-	func(r *rand.Rand) uint64 { return r.Uint64() &^ 0xff | r.Uint64()&r.Uint64()&0xff },
+	func(r *rand.Rand) uint64 { return r.Uint64()&^0xff | r.Uint64()&r.Uint64()&0xff },
 }
 
 // patWords builds a bitmap of nw words, each from a pattern; with probability pzero a word is empty.
@@ -582,6 +582,49 @@ func genC13(g *Gen) {
 		}
 		emit(ws)
 	}
+	// runs of exactly 1024, 1025, 2048, 2049 ... empty words (65536-bit blocks that block-wise scans skip) between
+	// 1-bits, the bits sitting in the first and last positions of the words around the run; scans starting in, right
+	// before and right behind the first word and ending in, right before and right behind the word after the run
+	for c := 0; c < g.N(8, 120); c++ {
+		lead := []int{0, 1, 2, 5}[r.Intn(4)]
+		run := []int{1024, 1024, 1025, 2048, 2049, 1023, 2050, 3072}[c%8]
+		nw := lead + 1 + run + 1 + r.Intn(3)
+		ws := make([]uint64, nw, nw+1)
+		first, after := lead, lead+1+run // the word before the run and the word behind it
+		var bits []int64
+		for k := 1 + r.Intn(2); k > 0; k-- {
+			b := []int{0, 1, 63, r.Intn(64)}[r.Intn(4)]
+			ws[first] |= 1 << uint(b)
+			bits = append(bits, int64(first*64+b))
+		}
+		if c%3 == 1 {
+			ws[first] = 0 // nothing before the run either
+		}
+		for k := 1 + r.Intn(2); k > 0; k-- {
+			b := []int{0, 5, 63, r.Intn(64)}[r.Intn(4)]
+			ws[after] |= 1 << uint(b)
+			bits = append(bits, int64(after*64+b))
+		}
+		n := int64(nw * 64)
+		pts := []int64{0, 1, n, n - 1}
+		for _, w := range []int{first, first + 1, after, after + 1} {
+			for _, d := range []int64{-1, 0, 1, 2, 63, 64} {
+				pts = append(pts, int64(w*64)+d)
+			}
+		}
+		for _, b := range bits {
+			pts = append(pts, b-1, b, b+1, b+2)
+		}
+		var ranges [][]int64
+		for _, i := range pts {
+			for _, e := range pts {
+				if 0 <= i && i <= e && i < n && e <= n && len(ranges) < 900 {
+					ranges = append(ranges, []int64{i, e})
+				}
+			}
+		}
+		g.Case("scan", J{"bm": bmJ(ws), "ranges": ranges})
+	}
 	// 1-bits separated by 1..5 all-zero words, bits at offsets 0 and 63
 	for gap := 1; gap <= 5; gap++ {
 		for rep := 0; rep < g.N(6, 40); rep++ {
@@ -826,6 +869,27 @@ func genC12(g *Gen) {
 		g.Case("ofmany", J{"subs": subs, "sizes": sizes})
 	}
 	genBitmaps(g, g.N(300, 10000), 8, 1, func(ws []uint64) { g.Case("toarray", J{"bm": bmJ(ws)}) })
+	// thousands of 1-bits, irregularly placed (the 4096th, 8192nd ... 1-bit anywhere inside a word): 70..400 words of
+	// dense random words, of an irregular prefix followed by a stride, of mostly full words
+	for c := 0; c < g.N(6, 150); c++ {
+		nw := 70 + r.Intn(331)
+		ws := make([]uint64, nw)
+		for i := range ws {
+			switch c % 3 {
+			case 0:
+				ws[i] = r.Uint64() | r.Uint64() | r.Uint64()
+			case 1:
+				ws[i] = 0x1084210842108421 << uint(i%5)
+			default:
+				ws[i] = ^uint64(0) &^ (1 << uint(r.Intn(64)))
+				if r.Intn(9) == 0 {
+					ws[i] = r.Uint64()
+				}
+			}
+		}
+		ws[0] = ws[0]&^0xff | uint64(r.Intn(256)) // an irregular beginning shifts every later count
+		g.Case("toarray", J{"bm": bmJ(ws)})
+	}
 }
 
 // ---------------------------------------------------------------- C14
@@ -1099,6 +1163,33 @@ func genC12b(g *Gen) {
 				}
 			}
 		}
+		g.Case("bld", J{"ops": ops})
+	}
+	// growth by a thousand words and more in ONE call: Extend with sizes of 2^16 .. 2^22 bits or a far position,
+	// Set far beyond the end; before and after smaller steps
+	for h := 0; h < g.N(24, 600); h++ {
+		ops := []J{{"k": "BNew", "n": []int{0, 64, 1000, 70000}[r.Intn(4)]}}
+		big := func() int64 {
+			return []int64{65536, 65537, 70000, 1 << 17, 1<<16 + 64*int64(r.Intn(3000)), 1 << 20, 1<<22 + 7, 65535, 64 * 1023, 64 * 1024, 64*1025 + 1}[r.Intn(11)]
+		}
+		if r.Intn(2) == 0 {
+			ops = append(ops, J{"k": "BExtend", "pos": []int64{0, 2, 5}, "size": int64(6 + r.Intn(100))})
+		}
+		for i := 1 + r.Intn(3); i > 0; i-- {
+			switch r.Intn(4) {
+			case 0:
+				ops = append(ops, J{"k": "BExtend", "pos": []int64{3}, "size": big()})
+			case 1:
+				b := big()
+				ops = append(ops, J{"k": "BExtend", "pos": []int64{0, b - 1}, "size": b})
+			case 2:
+				ops = append(ops, J{"k": "BExtend", "pos": []int64{1, big() + 5}, "size": int64(2 + r.Intn(60))}) // far position, small size (last segment)
+				i = 0
+			default:
+				ops = append(ops, J{"k": "BSet", "pos": big(), "val": 1})
+			}
+		}
+		ops = append(ops, J{"k": "BSet", "pos": int64(r.Intn(100)), "val": r.Intn(2)})
 		g.Case("bld", J{"ops": ops})
 	}
 }
